@@ -636,15 +636,82 @@ func init() {
 			"indexed varchar values <= 700 bytes",
 		},
 		Run: c06Run,
-		Replay: func(raw json.RawMessage) (string, bool) {
-			var rp struct {
-				Schema string  `json:"schema"`
-				Rows   [][]any `json:"rows"`
-				SQL    string  `json:"sql"`
-			}
-			json.Unmarshal(raw, &rp)
-			return "re-run the check: C06 replays are statements: " + rp.SQL + " on schema " + rp.Schema + " rows " + fmt.Sprint(rp.Rows), false
-		},
+		Replay: c06Replay,
 	})
 	_ = sort.Strings
+}
+
+// c06Replay re-executes one recorded statement on the recorded table contents: the statement is found by
+// its SQL text among the statements the driver enumerates for that schema.
+func c06Replay(raw json.RawMessage) (string, bool) {
+	var rp struct {
+		Schema string  `json:"schema"`
+		Rows   [][]any `json:"rows"`
+		SQL    string  `json:"sql"`
+	}
+	json.Unmarshal(raw, &rp)
+	for _, sc := range c06Schemas() {
+		if sc.Name != rp.Schema {
+			continue
+		}
+		// JSON turned the values into float64/string: bring them back to the column types
+		var rows [][]any
+		for _, r := range rp.Rows {
+			row := make([]any, len(r))
+			for i, v := range r {
+				switch sc.Def.Cols[i].Type {
+				case TInt:
+					row[i] = int32(v.(float64))
+				case TFloat:
+					row[i] = float32(v.(float64))
+				default:
+					row[i] = v
+				}
+			}
+			rows = append(rows, row)
+		}
+		leaves := c06Leaves(sc, func(v any) bool { return true })
+		var few []Pred
+		for i, l := range leaves {
+			if i%5 == 0 {
+				few = append(few, l)
+			}
+		}
+		res := core.NewResult()
+		var colNames []string
+		for _, cd := range sc.Def.Cols {
+			colNames = append(colNames, cd.Name)
+		}
+		selLists := [][]string{{"*"}, {colNames[0]}, {colNames[1]}, {colNames[0], colNames[1]}, {colNames[1], colNames[0]}}
+		for _, p := range c06Preds(leaves, 3, few) {
+			for _, sl := range selLists {
+				sel := &Stmt{Kind: "select", Table: "t", Cols: sl, Where: p}
+				if sel.SQL() != rp.SQL {
+					continue
+				}
+				env := c06Open(sc, rows)
+				defer env.Close()
+				if v := env.runSelect(sel, res); v != nil {
+					return fmt.Sprintf("schema %s rows %v\n%s: %s", sc.Name, rows, v.clause, v.detail), true
+				}
+				return fmt.Sprintf("schema %s rows %v\n%s -> agrees with the model under every plan", sc.Name, rows, rp.SQL), false
+			}
+		}
+		// DML: run it and compare the table afterwards
+		bad := false
+		var out string
+		ctx := &core.Ctx{Prop: "C06", Tier: "thorough", Shard: 0, Of: 1, Deadline: time.Now().Add(time.Minute), Res: res}
+		c06DML(ctx, sc, rows, leaves, map[string][]any{sc.Def.Cols[0].Name: extraLits(sc.Def.Cols[0].Type), sc.Def.Cols[1].Name: extraLits(sc.Def.Cols[1].Type)},
+			func(_ *c06Schema, _ [][]any, v *c06Verdict, stmt string) {
+				if stmt == rp.SQL {
+					bad = true
+					out = v.clause + ": " + v.detail
+				}
+			})
+		if bad {
+			return out, true
+		}
+		return "statement " + rp.SQL + " on " + fmt.Sprint(rows) + ": no disagreement with the model", false
+	}
+	return "unknown schema " + rp.Schema, false
 }
